@@ -3,6 +3,8 @@ import AnsiProofs.Lemmas.Scrub
 import AnsiModel.Generated.Methods.ParsePrims
 import AnsiModel.Generated.Methods.ScrubFormatInt
 import AnsiModel.Generated.Methods.ParseRgbString
+import AnsiModel.Generated.Methods.ScrubSettingsObjs
+import AnsiModel.Generated.Methods.ScrubFormatString
 
 -- some simp arguments are there for other shapes the source may take
 set_option linter.unusedSimpArgs false
@@ -345,6 +347,133 @@ theorem component_dict (k : Option Str) :
 theorem clamp (r : Nat) : (min (255 : Int) (max 0 (r : Int))).toNat = min 255 r := by omega
 theorem clamp' (r : Nat) : (min (255 : Int) (r : Int)).toNat = min 255 r := by omega
 theorem natCast_not_neg (v : Nat) : ¬ ((v : Int) < 0) := by omega
+
+/-! ### `_scrub_ansi_settings` on a list of AnsiSettings: the loops -/
+
+theorem while_done {σ : Type} {cond : σ → Except Exc Bool} {body : σ → Except Exc σ} {st : σ}
+    (h : cond st = .ok false) (fuel : Nat) : PyParse.whileM fuel cond body st = .ok st := by
+  cases fuel <;> simp [PyParse.whileM, h, bindOk]
+
+theorem while_step {σ : Type} {cond : σ → Except Exc Bool} {body : σ → Except Exc σ} {st st' : σ}
+    (hc : cond st = .ok true) (hb : body st = .ok st') (fuel : Nat) :
+    PyParse.whileM (fuel + 1) cond body st = PyParse.whileM fuel cond body st' := by
+  simp [PyParse.whileM, hc, hb, bindOk]
+
+/-- a round of the first loop: the setting (copied or not) is appended -/
+def CopySpec (mu : Bool) (step : List Str → Str → Except Exc (List Str)) : Prop :=
+  ∀ out t, (mu = true → t ≠ []) → step out t = .ok (out ++ [t])
+
+theorem fold_copy {mu : Bool} {step : List Str → Str → Except Exc (List Str)} (h : CopySpec mu step) :
+    ∀ (ts out : List Str), (mu = true → ∀ t ∈ ts, t ≠ []) → List.foldlM step out ts = .ok (out ++ ts)
+  | [], out, _ => by simp; rfl
+  | t :: ts, out, hne => by
+    rw [List.foldlM_cons, h out t (fun hm => hne hm t (by simp))]
+    show List.foldlM step (out ++ [t]) ts = _
+    rw [fold_copy h ts _ (fun hm x hx => hne hm x (by simp [hx]))]
+    simp
+
+/-- the `while` over `settings_out` when it holds no int: state `(idx, current_ints, settings_out)`, every
+    round only advances `idx` -/
+def WalkSpec (out : List Str) (cond : Int × List Code × List Str → Except Exc Bool)
+    (body : Int × List Code × List Str → Except Exc (Int × List Code × List Str)) : Prop :=
+  ∀ i : Nat, i ≤ out.length →
+    cond ((i : Int), [], out) = .ok (decide (i < out.length)) ∧
+    (i < out.length → body ((i : Int), [], out) = .ok (((i + 1 : Nat) : Int), [], out))
+
+theorem walk_loop {out : List Str} {cond : Int × List Code × List Str → Except Exc Bool}
+    {body : Int × List Code × List Str → Except Exc (Int × List Code × List Str)} (h : WalkSpec out cond body) :
+    ∀ (n i fuel : Nat), i + n = out.length → n ≤ fuel →
+      PyParse.whileM fuel cond body ((i : Int), [], out) = .ok ((out.length : Int), [], out)
+  | 0, i, fuel, hi, _ => by
+    have hc := (h i (by omega)).1
+    have : decide (i < out.length) = false := by simp; omega
+    rw [this] at hc
+    rw [while_done hc]
+    have : i = out.length := by omega
+    rw [this]
+  | n + 1, i, fuel, hi, hf => by
+    obtain ⟨hc, hb⟩ := h i (by omega)
+    have hlt : i < out.length := by omega
+    have : decide (i < out.length) = true := by simp; omega
+    rw [this] at hc
+    obtain ⟨f, rfl⟩ : ∃ f, fuel = f + 1 := ⟨fuel - 1, by omega⟩
+    rw [while_step hc (hb hlt)]
+    exact walk_loop h n (i + 1) f (by omega) (by omega)
+
+/-! ### `_scrub_ansi_format_string` -/
+
+/-- the model's errors as outcomes of the generated functions -/
+def liftErr {α : Type} : Except PyErr α → Except Exc α
+  | .ok a => .ok a
+  | .error e => .error (.py e)
+
+/-- one `format` of the string: what a round of the loop has to do -/
+def DirSpec (step : List SOut → Str → Except Exc (List SOut)) : Prop :=
+  ∀ acc fmt, step acc fmt = liftErr ((Scrub.scrubDirective fmt).map (fun r => acc ++ r))
+
+theorem fold_dirs {step : List SOut → Str → Except Exc (List SOut)} (h : DirSpec step) :
+    ∀ (fmts : List Str) (acc : List SOut),
+      List.foldlM step acc fmts =
+        liftErr (fmts.foldlM (fun acc fmt => do
+            let r ← Scrub.scrubDirective fmt
+            pure (acc ++ r)) acc)
+  | [], acc => rfl
+  | fmt :: fmts, acc => by
+    rw [List.foldlM_cons, List.foldlM_cons, h]
+    cases hd : Scrub.scrubDirective fmt with
+    | error e => rfl
+    | ok r =>
+      show List.foldlM step (acc ++ r) fmts = _
+      rw [fold_dirs h fmts]
+      rfl
+
+theorem normName_code (f : Str) :
+    PyParse.replaceChar (PyParse.replaceChar (PyParse.upper f) ' ' '_') '-' '_' = Scrub.normName f := by
+  unfold PyParse.replaceChar PyParse.upper Scrub.normName
+  rw [List.map_map, List.map_map]
+  apply List.map_congr_left
+  intro c _
+  simp only [Function.comp]
+  by_cases h1 : Scrub.upperAscii c = ' '
+  · simp [h1]
+  · by_cases h2 : Scrub.upperAscii c = '-'
+    · simp [h1, h2]
+    · simp [h1, h2]
+
+theorem lookup_member (name : Str) : Scrub.lookupFormat name = (PyParse.formatMember name).map (·.2) := rfl
+
+theorem colorSettings_ne_nil (comp : Nat) (b : Bool) (args : List Nat) : Scrub.colorSettings comp b args ≠ [] := by
+  unfold Scrub.colorSettings
+  simp only []
+  split
+  · simp
+  · split <;> simp
+
+/-- what `_parse_rgb_string` returns is never an empty list (`if not rgb_format_list` then means `None`) -/
+theorem parseRgb_ne_nil {s : Str} {ts : List Str} (h : Scrub.parseRgbString s = some (.ok ts)) : ts ≠ [] := by
+  unfold Scrub.parseRgbString at h
+  repeat' split at h
+  all_goals first
+    | (simp only [Option.some.injEq, Except.ok.injEq] at h; rw [← h]; exact colorSettings_ne_nil _ _ _)
+    | (simp at h)
+
+/-- every member has at most two settings, none with an empty text -/
+def tableOk (l : List (Str × List Str)) : Bool := l.all (fun r => decide (r.2.length ≤ 2) && r.2.all (fun t => !t.isEmpty))
+
+theorem table_ok : tableOk Gen.formatTable = true := by scrubl_table_decide
+
+theorem member_ok {name : Str} {r : Str × List Str} (h : PyParse.formatMember name = some r) :
+    r.2.length ≤ 2 ∧ ∀ t ∈ r.2, t ≠ [] := by
+  have hm : r ∈ Gen.formatTable := List.mem_of_find?_eq_some h
+  have := table_ok
+  unfold tableOk at this
+  rw [List.all_eq_true] at this
+  have hr := this r hm
+  simp only [Bool.and_eq_true, decide_eq_true_eq, List.all_eq_true, Bool.not_eq_true'] at hr
+  refine ⟨hr.1, fun t ht e => ?_⟩
+  have := hr.2 t ht
+  rw [e] at this
+  simp at this
 
 end L
 open L
